@@ -139,6 +139,12 @@ def cases(tier):
         for vms in (("no-print,fail", "none"), ("none", "no-print,fail"), ("stop", "none"), ("none", "stop"), ("no-raise,no-stop", "none"), ("stop", "no-print,fail")):
             for method in ("collect_paths", "collect_by_line", "fast_forward_paths", "next_by_line"):
                 yield {"policy": pol, "kind": "argtype", "pos": "two", "vmode": vms[0], "vmode_b": vms[1], "variant": "group-isolation", "func": None, "method": method}
+    # 'raise' in the csvpath's policy reaches the caller of a named-paths run whatever the CsvPaths-level policy says
+    for pol in subsets:
+        if "raise" not in pol or "quiet" in pol or len(pol) < 2:
+            continue
+        for method in ("collect_paths", "fast_forward_paths", "next_paths", "collect_by_line", "fast_forward_by_line"):
+            yield {"policy": pol, "kind": "argtype", "pos": "two", "vmode": "none", "variant": "group-raise", "func": None, "method": method}
     if tier == "thorough":
         for pol in subsets:
             for func in NUMERIC_FUNCS:
@@ -215,11 +221,38 @@ def run_group_isolation(case, agg):
         env.write_config(".")
 
 
+def run_group_raise(case, agg):
+    from vfy import cps, env, hooks
+
+    pol, method = case["policy"], case["method"]
+    faults = POSITIONS[case["pos"]]
+    rows, m = build("argtype", faults)
+    cps.reset_sandbox()
+    env.write_config(".", csvpath_policy=pol, csvpaths_policy=["collect", "print"])
+    try:
+        cs = env.new_csvpaths()
+        cps.add_file(cs, "data", [["a", "b", "c"]] + rows)
+        cs.paths_manager.add_named_paths(name="grp", paths=[f"~ id: m0 ~ $[1*][{m}]"])
+        with hooks.recording(agg) as rec:
+            lines, exc = cps.run_method(cs, method, "grp", "data")
+        w = {"member": f"$[1*][{m}]", "policy": pol, "csvpaths_policy": ["collect", "print"], "method": method, "fault_lines": faults}
+        if exc is None:
+            return "raise:group", dict(w, problem="'raise' is in the csvpath's policy and a match component raised on line %d, but no exception reached the caller of the named-paths run" % faults[0])
+        considered = [ev["pln"] for ev in rec.lines if ev["considered"]]
+        if considered and considered[-1] != faults[0]:
+            return "raise:group-stop-line", dict(w, considered=considered)
+        return None
+    finally:
+        env.write_config(".")
+
+
 def run_case(case, agg):
     from vfy import env, hooks
 
     if case.get("variant") == "group-isolation":
         return run_group_isolation(case, agg)
+    if case.get("variant") == "group-raise":
+        return run_group_raise(case, agg)
     pol, kind, pos, vm, variant = case["policy"], case["kind"], case["pos"], case["vmode"], case["variant"]
     faults = POSITIONS[pos]
     rows, m = build(kind, faults, case.get("func"))
